@@ -57,3 +57,24 @@ Theorem C16_acceptor_sound : forall tr sf,
   exists evs, su_reach evs = Some sf /\ observe su_init evs = Some (map vis_of tr, sf).
 Proof. exact acceptor_sound. Qed.
 Print Assumptions C16_acceptor_sound.
+
+(* how the probe asks (method, query, headers, body, HTTP version, a reused
+   connection) does not matter: its client reads [probe s], so every statement
+   above holds for every request *)
+Theorem C16_answer_of_state_only : forall evs s r,
+  su_reach evs = Some s ->
+  serve s r = probe s /\
+  (forall r', serve s r' = serve s r) /\
+  (serve s r = 200%N -> finished s = true /\ Forall ended (procs s)) /\
+  ((finished s = false \/ exists p, running s p) -> serve s r = 425%N).
+Proof. exact answer_of_state_only. Qed.
+Print Assumptions C16_answer_of_state_only.
+
+(* a handler that, for some kind of request, writes its document before the
+   status answers 200 to such a request while a process is still running *)
+Theorem C16_body_before_status_refuted : forall (wants : request -> bool) r,
+  wants r = true ->
+  exists evs s, su_reach evs = Some s /\ finished s = false /\ (exists p, running s p) /\
+                probe s = 425%N /\ client_status (body_first_ops wants s r) = 200%N.
+Proof. exact body_first_refuted. Qed.
+Print Assumptions C16_body_before_status_refuted.
